@@ -1226,3 +1226,10 @@ def g_stabilizer_state_list(rng, level=0, n_random=150):
         if k % 7 == 3:
             g[0] = 0                                     # the identity string among the generators
         yield {'stabilizers': (pa.PauliList(g, p),)}
+
+
+@gen(ST + 'random_bit_state_gs_ps')
+@gen(ST + 'random_bit_state')
+def g_random_bit(rng, level=0, n_random=40):
+    for k in range(n_random):
+        yield {'N': k % 6}
